@@ -337,9 +337,12 @@ class ClimateDrv(Driver):
         gas, kw = [], {}
         c = rng.randrange(10)
         if c < 7:
-            gas.append(_ga("setpoint_shift"))
-            if rng.random() < 0.4:
-                gas.append(_ga("setpoint_shift_state"))
+            if rng.random() < 0.92:
+                gas.append(_ga("setpoint_shift"))
+                if rng.random() < 0.4:
+                    gas.append(_ga("setpoint_shift_state"))
+            else:
+                gas.append(_ga("setpoint_shift_state"))  # the shift is only observed: the target temperature object carries the command
             r = rng.random()
             if r < 0.6:
                 gas.append(_ga("target_temperature_state"))
@@ -379,7 +382,7 @@ class ClimateDrv(Driver):
         if _ga("target_temperature_state") in gas and rng.random() < 0.85:
             t = rng.choice([21.0, 20.0, 22.5, 6.0, 19.3, 23.7, round(rng.uniform(5, 30), 1), round(rng.uniform(5, 30), 2)])
             pre.append([_ga("target_temperature_state"), "A:" + enc9(t)])
-        if _ga("setpoint_shift") in gas and rng.random() < 0.85:
+        if (_ga("setpoint_shift") in gas or _ga("setpoint_shift_state") in gas) and rng.random() < 0.85:
             mode = cfg["kw"].get("setpoint_shift_mode") or rng.choice(["DPT6010", "DPT9002"])
             key = _ga("setpoint_shift_state") if _ga("setpoint_shift_state") in gas else _ga("setpoint_shift")
             if mode == "DPT6010":
@@ -392,7 +395,7 @@ class ClimateDrv(Driver):
         gas = cfg["ga"]
         step = cfg["kw"].get("temperature_step", 0.1)
         opts = []
-        if _ga("setpoint_shift") in gas:
+        if _ga("setpoint_shift") in gas or _ga("setpoint_shift_state") in gas:
             opts += ["set_setpoint_shift"] * 4 + ["set_target_temperature"] * 4
         elif _ga("target_temperature") in gas:
             opts += ["set_target_temperature"] * 4
@@ -452,6 +455,8 @@ class ClimateDrv(Driver):
             for k in range(-8, 9):
                 yield {"cls": "Climate", "cfg": {"kw": {"setpoint_shift_mode": "DPT6010", "temperature_step": step}, "ga": [_ga("setpoint_shift")]},
                        "pre": [], "calls": [["set_setpoint_shift", [F(k * step)]]]}
+        for v in range(0, 101):
+            yield {"cls": "Climate", "cfg": {"kw": {}, "ga": [_ga("fan_speed")]}, "pre": [], "calls": [["set_fan_speed", [I(v)]]]}
         cfg = {"kw": {"setpoint_shift_mode": "DPT6010"}, "ga": [_ga("setpoint_shift"), _ga("target_temperature_state")]}
         for b10 in (200, 210, 60, 193):
             for d in range(-12, 13):
@@ -523,11 +528,10 @@ class ClimateDrv(Driver):
         return multi(rec, items)
 
     def model_line(self, case, recs):
-        from harness.c39_drivers import near_tie, qtok
+        from harness.c39_drivers import near_tie, near_tie_scaling, qtok, scaling_result
 
         cfg = case["cfg"]
-        if cfg["kw"].get("setpoint_shift_mode") != "DPT6010" or _ga("setpoint_shift") not in cfg["ga"]:
-            return None, None
+        shift_modelled = cfg["kw"].get("setpoint_shift_mode") == "DPT6010" and _ga("setpoint_shift") in cfg["ga"]
         step = Fraction(cfg["kw"].get("temperature_step", 0.1))
         smin, smax = Fraction(cfg["kw"].get("setpoint_shift_min", -6)), Fraction(cfg["kw"].get("setpoint_shift_max", 6))
         toks, exp = [], []
@@ -535,7 +539,14 @@ class ClimateDrv(Driver):
         for (m, args), rec in zip(case["calls"], recs[1:]):
             base = prev["base"]
             prev = rec["obs"]
-            if m not in ("set_setpoint_shift", "set_target_temperature") or not L.finite(args[0]):
+            if m == "set_fan_speed" and _ga("fan_speed") in cfg["ga"] and cfg["kw"].get("fan_speed_mode") != "STEP":
+                a = qtok(args[0])
+                if a is None or near_tie_scaling(0, 100, args[0]):
+                    return None, None
+                toks.append(f"sc:0:100:{a}")
+                exp.append(scaling_result(rec, _ga("fan_speed"), rec["obs"]["fan"]))
+                continue
+            if not shift_modelled or m not in ("set_setpoint_shift", "set_target_temperature") or not L.finite(args[0]):
                 continue
             if m == "set_target_temperature":
                 if base is None:
@@ -549,12 +560,12 @@ class ClimateDrv(Driver):
                 return None, None
             q = lambda x: f"{x.numerator}/{x.denominator}"
             toks.append(f"sh:{q(step)}:{q(smin)}:{q(smax)}:{q(v)}")
-            if rec["r"] != "ok":
-                exp.append(rec["r"])
+            s = [x for x in rec["sent"] if x[0] == _ga("setpoint_shift")]
+            if len(s) == 1:
+                b = int(s[0][2][2:], 16)
+                exp.append(f"ok:{b - 256 if b > 127 else b}")   # also when the target temperature object refused afterwards
             else:
-                s = [x for x in rec["sent"] if x[0] == _ga("setpoint_shift")]
-                b = int(s[0][2][2:], 16) if len(s) == 1 else None
-                exp.append("none" if b is None else f"ok:{b - 256 if b > 127 else b}")
+                exp.append(rec["r"] if rec["r"] != "ok" else "none")
         if not toks:
             return None, None
         return "c39 " + " ".join(toks), " ".join(exp)
